@@ -328,3 +328,21 @@ mut('C16', 'dff-qn-from-q-line', 'sim.py', 'ops.append((INV1, n.outs[1].index, i
 mut('C06', 'strip-port-forks', 'sim.py', '                if f in interface_dict: continue  # port forks (e.g. from bench) are evaluated as PI/PPI, their outputs are no branches\n', '', 'C08.alias')
 mut('C01', 'release-inside-op-loop', 'sim.py', '                self.c_locs[o_idx], self.c_caps[o_idx] = h.alloc(cap), cap\n            if c_reuse:\n                for loc in free_set:\n                    h.free(loc)', '                self.c_locs[o_idx], self.c_caps[o_idx] = h.alloc(cap), cap\n                if c_reuse:\n                    for loc in free_set:\n                        h.free(loc)\n                    free_set = set()', 'C07.release')
 mut('C05', 'overflow-parity-lost', 'wave_sim.py', '                    previous_t = cbuf[z_mem + z_cur - 1, sim]\n                    z_cur -= 1', '                    previous_t = cbuf[z_mem + z_cur - 1, sim]', 'C03.parity')
+
+# ------------------------------------------------------------------ C11 (structural necessary conditions only)
+mut('C11', 'range-descending-off', 'verilog.py', 'return range(left, right+1) if left <= right else range(left, right-1, -1)', 'return range(left, right+1) if left <= right else range(left, right, -1)', 'C11.range')
+mut('C11', 'range-always-ascending', 'verilog.py', 'return range(left, right+1) if left <= right else range(left, right-1, -1)', 'return range(min(left, right), max(left, right)+1)', 'C11.range')
+mut('C11', 'const-lsb-first', 'verilog.py', "                l.insert(0, \"1'b1\" if (const & 1) else \"1'b0\")", "                l.append(\"1'b1\" if (const & 1) else \"1'b0\")", 'C11.const')
+mut('C11', 'const-hex-base', 'verilog.py', "{'b': 2, 'd':10, 'h':16}", "{'b': 2, 'd':10, 'h':8}", 'C11.const')
+mut('C11', 'pin-index-of-kind', 'verilog.py', 'Line(c, fork, (n, self.tlib.pin_index(stmt.type, p)))', 'Line(c, fork, (n, self.tlib.pin_index(stmt.type, s)))', 'C11.pins')
+mut('C11', 'output-pin-direction', 'verilog.py', '                    if self.tlib.pin_is_output(n.kind, p): continue', '                    if not self.tlib.pin_is_output(n.kind, p): continue', 'C11.pins')
+mut('C11', 'port-position-not-advanced', 'verilog.py', '                positions[name] = pos\n                pos += 1', '                positions[name] = pos\n            pos += 1', 'C11.ports')
+mut('C11', 'escaped-name-keeps-blank', 'verilog.py', "return s[1:-1] if s[0] == '\\\\' else s", "return s[1:] if s[0] == '\\\\' else s", 'C11.names')
+mut('C11', 'names-reversed', 'verilog.py', "return [f'{self.basename}[{i}]' for i in self.rnge]", "return [f'{self.basename}[{i}]' for i in sorted(self.rnge)]", 'C11.decl')
+mut('C11', 'bench-drivers-reversed', 'bench.py', '        for d in drivers: Line(self.c, d, cell)', '        for d in reversed(drivers): Line(self.c, d, cell)', 'C11.bench')
+mut('C11', 'branchfork-extra-effect', 'verilog.py', '                        Line(c, fork, branchfork)\n                        fork = branchfork', '                        Line(c, fork, branchfork)', 'C11.pins')
+mut('C11', 'positional-pin-offset', 'verilog.py', '                pinmap[idx] = p', '                pinmap[idx + 1] = p', 'C11.pins')
+mut('C11', 'inout-as-output', 'verilog.py', '    def inout(self, args): return self.declaration("input", args)  # just treat as input', '    def inout(self, args): return self.declaration("output", args)', 'C11.decl')
+mut('C11', 'grammar-range-sep-kept', 'verilog.py', 'range: "[" /[0-9]+/ (":" /[0-9]+/)? "]"', 'range: "[" /[0-9]+/ (/:/ /[0-9]+/)? "]"', ['C11.grammar', 'C11.lexical'])
+mut('C11', 'concat-callback-renamed', 'verilog.py', '    def concat(self, args):', '    def concatenation(self, args):', 'C11.grammar')
+neutral('C11', 'n-comment', 'verilog.py', '        for decls in args[2:]:  # pass 0: collect signal declarations', '        for decls in args[2:]:  # pass 0 - declarations')
